@@ -317,6 +317,18 @@ def search(ctx):
         if why:
             found.append({"clause": "equivalent spellings of a server address give the same placement: " + why,
                           "input": {"a": repr(a), "b": repr(b)}, "observed": repr((na, nb)), "expected": "equal node names and placement", "size": 0})
+    # 3b. 'unix:<path>' names the socket <path>, whatever <path> starts with (paths beginning with a letter of "unix:" included)
+    for path in ("/tmp/x.sock", "nodes/mc.sock", "u", "xinu:/a", "i/n/u/x.sock", "unix:/y", ":", "/unix:z"):
+        try:
+            # the name placement uses (no client is built: a RELATIVE path handed on to Client is normalised a second time there and
+            # read as a host name - a defect of the pinned code outside this property, see DESIGN section 6)
+            from pymemcache.client.base import normalize_server_spec
+            got = [HashClient([])._make_client_key(normalize_server_spec("unix:" + path))]
+        except Exception as e:  # noqa
+            got = "%s: %s" % (type(e).__name__, e)
+        if got != [path]:
+            found.append({"clause": "equivalent spellings of a server address give the same placement: the node of 'unix:%s' is named %r, not %r" % (path, got, path),
+                          "input": {"a": repr(["unix:" + path])}, "observed": repr(got), "expected": repr([path]), "size": 0})
     # 4. process / hash-randomisation independence
     digs = {hashseed_digest(s) for s in (0, 1, 2, 4242)}
     if len(digs) != 1 or "" in digs:
